@@ -709,7 +709,7 @@ EXPLANATION = (
     "integer ranges are evaluated as formulas for w=1..12; (back end) format_cast is interpreted over the finite "
     "domain root-kind x target-kind x value-kind x width-relation (81 cases): every accepted case is emitted with the "
     "root's VHDL type, extended in the source's signedness iff the target is wider; every assignment form runs the "
-    "trial in the direction target <- source; branch merges never join Null/Full. NOT decided: bit-exactness of "
+    "trial in the direction target <- source; branch merges never join Null/Full; BitState.construct is evaluated abstractly over ints / Integer values / bools around {0,1} (C05.bitctor). NOT decided: bit-exactness of "
     "numeric_std resize, the Python bit-copy loops."
 )
 ASSUMPTIONS = [
